@@ -15,6 +15,9 @@
 // Brace family (brace.go): the same bases with text slots that contain braces which do not start a tag
 // (CSS, JSON, JavaScript), every dash subset, three spellings.
 //
+// Size family (size.go): single dashed delimiters and the all-dashed subset of every base inside a template of
+// about 1000 / 1024 / 2048 tokens (thorough: 4096, 8192) and of about 4096 bytes (dash-free padding tags).
+//
 // Multi-tag family (multi.go): every ordered pair (thorough: also every ordered triple) of constructs
 // from a 12-entry tag alphabet, written one after the other with text in between, every subset of all
 // delimiters of the sequence dashed - what follows or precedes a dashed tag is a dimension of its own.
@@ -161,6 +164,11 @@ func run(t *vlib.T) {
 	if !runBraces(t, styles) {
 		return
 	}
+	// pass 1d: size family (size.go): single dashed delimiters and the all-dashed subset of every base
+	// inside a template of about 1000 / 1024 / 2048 (thorough: 4096, 8192) tokens and around 4096 bytes.
+	if !runSizes(t) {
+		return
+	}
 	// pass 2: every text slot draws its own text independently of the others.
 	// quick: 3 texts per slot, bases with at most 8 delimiters; thorough: 5 texts per slot
 	// (4 where that exceeds 10^6 cases for one base).
@@ -231,6 +239,8 @@ func main() {
 			"with text in between x every subset of all delimiters of the sequence (all 2^d up to d = 10; d = 12: size <= 3 and all-dashed) x spellings x uniform fillings; " +
 			"plus the brace family: every base x every dash subset x spellings with the text slots carrying one of 6 texts whose braces do not start a tag (a { b, {x}, .c{color:red}, {\"k\": 1}, { { z, a{b - {c) " +
 			"in the slots that have a core / in every slot (thorough: in each single slot, wider whitespace, every ordered pair of constructs); " +
+			"plus the size family: every parsing base that starts with text x every single dashed delimiter and the all-dashed subset, written after / before M dash-free print tags (+ 0..2 one-letter texts) " +
+			"so that the template's token count runs through every value around 1000, 1024, 2048 (thorough: 4096, 8192) and its byte length lies just below / above 4096; " +
 			"each rendered dashed, as the hand-trimmed undashed twin, and dashed behind a 4100-byte comment (second tokenizer). " +
 			"non-trivial = at least one dash stands next to a non-empty whitespace run, i.e. the dashed source and the twin differ by more than the dashes",
 		Assumptions: []string{
